@@ -141,23 +141,31 @@ def rebase (absBase curDir path : Bytes) : Bytes :=
 def explicitLoop (explicit : List Gi) (path : Bytes) (isDir : Bool) : M3 :=
   explicit.reverse.foldl (fun m g => if !m.isNone then m else g.matched path isDir) .none
 
+/-- the two `for ig in self.parents()…` loops of `matched_ignore`: first the directories of this walk
+(asked about `path`), then — if `parents` and an absolute base exist — the absolute parents (asked about
+the re-based path) -/
+def foldLevels (o : Opts) (levels : List Level) (curDir : Bytes) (absBase : Option Bytes)
+    (path : Bytes) (isDir : Bool) : Acc :=
+  let anyGit := !o.requireGit || levels.any (·.hasGit)
+  let a0 : Acc := { custom := .none, ignore := .none, gi := .none, exclude := .none, sawGit := false }
+  let a1 := (levels.takeWhile (fun l => !l.isAbsoluteParent)).foldl (stepLevel anyGit path isDir) a0
+  if o.parents then
+    match absBase with
+    | some base =>
+      (levels.dropWhile (fun l => !l.isAbsoluteParent)).foldl
+        (stepLevel anyGit (rebase base curDir path) isDir) a1
+    | none => a1
+  else a1
+
 /-- `Ignore::matched_ignore`; `levels` = `self.parents()` (nearest first), `curDir` = `self.dir`,
 `absBase` = `self.absolute_base` -/
 def matchedIgnore (o : Opts) (levels : List Level) (curDir : Bytes) (absBase : Option Bytes)
     (explicit : List Gi) (global : Gi) (path : Bytes) (isDir : Bool) : M3 :=
   let anyGit := !o.requireGit || levels.any (·.hasGit)
-  let a0 : Acc := { custom := .none, ignore := .none, gi := .none, exclude := .none, sawGit := false }
-  let a1 := (levels.takeWhile (fun l => !l.isAbsoluteParent)).foldl (stepLevel anyGit path isDir) a0
-  let a2 :=
-    if o.parents then
-      match absBase with
-      | some base =>
-        (levels.dropWhile (fun l => !l.isAbsoluteParent)).foldl
-          (stepLevel anyGit (rebase base curDir path) isDir) a1
-      | none => a1
-    else a1
+  let a2 := foldLevels o levels curDir absBase path isDir
   let mExplicit := explicitLoop explicit path isDir
-  let mGlobal := if anyGit then global.matched path isDir else .none
+  -- `IgnoreBuilder::build`: the global matcher is empty unless `git_global`
+  let mGlobal := if anyGit then (if o.gitGlobal then global else Gi.empty).matched path isDir else .none
   a2.custom.or (a2.ignore.or (a2.gi.or (a2.exclude.or (mGlobal.or mExplicit))))
 
 /-- `Override::matched` (`ov` = the inner gitignore-style matcher, `numWhitelists` of that matcher) -/
@@ -263,5 +271,65 @@ def walkOpts (f : Flags) : Opts :=
 
 /-- are the `--ignore-file` arguments handed to the builder -/
 def useIgnoreFiles (f : Flags) : Bool := !f.noIgnoreFiles
+
+/-! ### one walk root (`walk.rs`: `add_parents(root)`, then `add_child` per directory entered) -/
+
+/-- `Path::join` for a relative component -/
+def joinName (dir name : Bytes) : Bytes :=
+  if dir.getLast? == some 47 || dir.isEmpty then dir ++ name else dir ++ [47] ++ name
+
+/-- all proper ancestors of an absolute path, nearest first (`while let Some(parent) = path.parent()`) -/
+def ancestors (p : Bytes) : List Bytes :=
+  let rec go : Nat → Bytes → List Bytes
+    | 0, _ => []
+    | fuel + 1, p =>
+      if p == [47] || p.isEmpty then [] else
+      let cut := ((p.reverse.dropWhile (· != 47)).drop 1).reverse
+      let parent := if cut.isEmpty then [47] else cut
+      parent :: go fuel parent
+  go (p.length + 1) p
+
+/-- the world as one walk sees it -/
+structure World where
+  opts : Opts
+  m : Matchers
+  rootGiven : Bytes                       -- the root as written on the command line (`./` by default)
+  rootAbs : Bytes                         -- its canonical absolute path
+  files : Bytes → DirFiles                -- rule files of a directory, by absolute path (`dir` is overwritten)
+  /-- `false` = the code as it is; `true` = the re-basing the documentation implies (the path below the
+  search root is appended to the absolute base), used only to state the known finding -/
+  fixRebase : Bool := false
+
+/-- the matchers of a directory are rooted at the path the walker uses for it
+(`GitignoreBuilder::new(dir)` strips a leading `./`) -/
+def DirFiles.withDir (d : DirFiles) (dir : Bytes) : DirFiles :=
+  let root := (stripPrefix [46, 47] dir).getD dir
+  { dir := dir, dotGit := d.dotGit,
+    custom := { d.custom with root := root }, ignore := { d.ignore with root := root },
+    gitignore := { d.gitignore with root := root }, exclude := { d.exclude with root := root } }
+
+/-- `self.parents()` for the matcher of the directory `rootGiven/comps`: the directories of this walk nearest
+first, then (if `add_parents` did anything) the absolute parents of the root -/
+def chainFor (w : World) (comps : List Bytes) : List Level × Bytes :=
+  let dirAt (k : Nat) : Bytes × Bytes :=
+    ((comps.take k).foldl joinName w.rootGiven, (comps.take k).foldl joinName w.rootAbs)
+  let mine := (List.range (comps.length + 1)).reverse.map fun k =>
+    childLevel w.opts ((w.files (dirAt k).2).withDir (dirAt k).1)
+  let above := if wantsParents w.opts then
+      (ancestors w.rootAbs).map fun a => parentLevel w.opts ((w.files a).withDir a)
+    else []
+  (mine ++ above, (dirAt comps.length).1)
+
+/-- is the entry `rootGiven/comps` (depth = `comps.length ≥ 1`) skipped when the walker meets it -/
+def entrySkipped (w : World) (comps : List Bytes) (isDir : Bool) : Bool :=
+  let (levels, curDir) := chainFor w comps.dropLast
+  let absBase := if wantsParents w.opts then some w.rootAbs else none
+  skipEntry w.opts w.m levels (if w.fixRebase then w.rootGiven else curDir) absBase comps.length
+    (comps.foldl joinName w.rootGiven) isDir
+
+/-- the walker yields the entry iff neither it nor any directory on the way down was skipped -/
+def entryVisited (w : World) (comps : List Bytes) (isDir : Bool) : Bool :=
+  (List.range comps.length).all fun i =>
+    !entrySkipped w (comps.take (i + 1)) (if i + 1 == comps.length then isDir else true)
 
 end RgVerif.IgnoreDir
